@@ -305,6 +305,15 @@ func scanRNSStore(c *core.Ctx) []ob {
 		var reduced func(e ast.Expr) bool
 		reduced = func(e ast.Expr) bool {
 			switch x := unparen(e).(type) {
+			case *ast.Ident:
+				// a local that stands for a residue or the modulus (a, b := s1[i], s2[i]; q := s.Modulus)
+				if o := info.Uses[x]; o != nil {
+					if d := singleDef(info, fd, o); d != nil {
+						if _, isIdent := unparen(d).(*ast.Ident); !isIdent {
+							return reduced(d)
+						}
+					}
+				}
 			case *ast.IndexExpr:
 				if t := info.TypeOf(x.X); t != nil && isRNSScalar(t) {
 					return true
